@@ -202,6 +202,22 @@ CLAIMS["C19"] = (
     "TypedDict keys that are not identifiers (refused by the library with ValueError).",
     "DESIGN.md section 5 C19", TECH)
 
+CLAIMS["C20"] = (
+    "Proof: C20_result_fresh - executing ANY rebuilding plan (the plans of load, dump and convert for every type are "
+    "instances) from allocation counter n reports a duplicate-free set of built identities inside [n, n'), and every "
+    "container of the result is one it built, a node of the argument (a position passed as is) or a node of a captured "
+    "class default; C20_no_sharing_between_calls, C20_built_is_new. 'Never mutates its argument' is true of a pure model by "
+    "construction and is deliberately not a theorem: it is decided by the tie. Tie: alias graphs - every mutable container "
+    "of the generated argument is numbered, the library runs, and the result is printed with each container labelled "
+    "argument-node-i or new; the model executes load_plan / dump_plan / conv_plan of the same type on the same numbered "
+    "argument and must print the same graph and build as many containers. Direct oracle: deep snapshot of the argument "
+    "before / after, second call equal, two results share only argument or class-default nodes.",
+    "Trusted: Coq kernel, CPython object identity, the renderers. Types: int, Any, List, Sequence, Set, FrozenSet, Dict[str, .], "
+    "Optional, dataclass models with factory / captured defaults and extra_in / extra_out (one or two targets); unions, "
+    "other model kinds, user loaders and name_mapping paths are outside this model (their containers are built by the same "
+    "generated code paths).",
+    "DESIGN.md section 5 C20", TECH)
+
 NOT_YET = "check not built yet in this session (DESIGN.md section 10 build order); not claimed until its model, theorems and correspondence exist"
 
 
